@@ -2143,6 +2143,54 @@ def translate() -> tuple[str, dict]:
     names, node = want['ANGLES']
     if ast.unparse(node.body[0]) != 'return str(Angle.from_str(value) @ self.orient)':
         raise TranslateError('fixup_key: ANGLES branch not recognised')
+    # --- census of every use of the placement (round 4): SM/C17Whole.v applies the placement to a placement-independent content,
+    # item by item, through the generated arithmetic; that is the code only if the placement is read nowhere else.  Recognised
+    # sites = the expressions executed symbolically above; every other load of origin / orient / inst.pos / inst.orient in
+    # collapse_one, of self.pos / self.orient in a method of Instance, every store to them outside __init__ and every use of
+    # the bare `inst` object other than as the receiver of an attribute access is counted as a use outside the arithmetic.
+    ang_branch_ret = node.body[0].value if isinstance(node.body[0], ast.Return) else None
+    bind_stmts = [s_ for s_ in c1.body if isinstance(s_, ast.Assign) and isinstance(s_.targets[0], ast.Name)
+                  and s_.targets[0].id in ('origin', 'orient')]
+    recognised: list[ast.AST] = [c_ for c_ in all_loc if [ast.unparse(a_) for a_ in c_.args] == ['origin', 'orient'] and not c_.keywords]
+    recognised += [org_expr, ang_rot, *bind_stmts, want['VEC'][1].body[0].value, want['EXT_VEC_DIRECTION'][1].body[0].value, *axis_vals]
+    if ang_branch_ret is not None:
+        recognised.append(ang_branch_ret)
+    inside = {id(x) for nd in recognised for x in ast.walk(nd)}
+    receivers = {id(n.value) for f_ in [c1] for n in ast.walk(f_) if isinstance(n, ast.Attribute)}
+    uses_in: list[str] = []
+    uses_out: list[str] = []
+
+    def use(n: ast.AST, what: str) -> None:
+        (uses_in if id(n) in inside else uses_out).append(f'{what}@{getattr(n, "lineno", 0)}')
+    for n in ast.walk(c1):
+        if isinstance(n, ast.Name) and n.id in ('origin', 'orient'):
+            if isinstance(n.ctx, ast.Load) or id(n) not in inside:
+                use(n, n.id)
+        elif isinstance(n, ast.Attribute) and isinstance(n.value, ast.Name) and n.value.id == 'inst' and n.attr in ('pos', 'orient'):
+            if isinstance(n.ctx, ast.Load):
+                use(n, 'inst.' + n.attr)
+            else:
+                uses_out.append(f'store inst.{n.attr}@{n.lineno}')
+        elif isinstance(n, ast.Name) and n.id == 'inst' and id(n) not in receivers:
+            uses_out.append(f'inst passed on@{n.lineno}')
+    inst_cls = next((n for n in itree.body if isinstance(n, ast.ClassDef) and n.name == 'Instance'), None)
+    if inst_cls is None:
+        raise TranslateError('class Instance not found')
+    for meth in [m_ for m_ in inst_cls.body if isinstance(m_, (ast.FunctionDef, ast.AsyncFunctionDef)) and m_.name != '__init__']:
+        recv_m = {id(n.value) for n in ast.walk(meth) if isinstance(n, ast.Attribute)}
+        self_name = meth.args.args[0].arg if meth.args.args else 'self'
+        for n in ast.walk(meth):
+            if isinstance(n, ast.Attribute) and isinstance(n.value, ast.Name) and n.value.id in (self_name, 'inst') and n.attr in ('pos', 'orient'):
+                if isinstance(n.ctx, ast.Load):
+                    use(n, f'{meth.name}: {n.value.id}.{n.attr}')
+                elif meth.name != 'from_entity':
+                    uses_out.append(f'{meth.name}: store {n.value.id}.{n.attr}@{n.lineno}')
+            elif isinstance(n, ast.Name) and n.id == self_name and self_name == 'self' and id(n) not in recv_m and isinstance(n.ctx, ast.Load):
+                uses_out.append(f'{meth.name}: self passed on@{n.lineno}')
+    side['placement_uses'] = {'at_arithmetic_sites': uses_in, 'elsewhere': uses_out}
+    E.lines.append(f'Definition g_placement_uses_at_arithmetic_sites : nat := {len(uses_in)}.')
+    E.lines.append(f'Definition g_placement_uses_elsewhere : nat := {len(uses_out)}.')
+
     # name-typed keyvalues (type.is_ent_name, TARG_DEST_CLASS when not a classname): the value goes through fixup_name, whole
     name_br = [nd for nms, nd in branches if '<is_ent_name>' in nms]
     cls_br = [nd for nms, nd in branches if 'TARG_DEST_CLASS' in nms]
